@@ -112,6 +112,10 @@ func (f *frame) applyContract(ct *Contract, callee *ssa.Function, args []Val, st
 		}
 	}
 	names := paramNames(callee, ct, sig)
+	var preCover *Obl
+	if !f.specMode {
+		preCover = c.addObl(&Obl{Name: "pre", Kind: "cover-pre", Cond: reach, Goal: sTrue, ExpectSat: true})
+	}
 	pre := c.baseEnv(callee, ct, st, reach)
 	if callee == nil {
 		pre.pkg = f.c.eng.pkgByPath(ct.Pkg)
@@ -189,7 +193,18 @@ func (f *frame) applyContract(ct *Contract, callee *ssa.Function, args []Val, st
 		c.assume(reach, g)
 	}
 	c.usedContracts[ct] = true
+	if !f.specMode {
+		// vacuity guard: the assumptions just made must leave the call site reachable
+		o := c.addObl(&Obl{Name: fmt.Sprintf("%s/call[%s]/cover@%s", f.fn.String(), ct.FuncName, siteName), Kind: "cover", Cond: reach, Goal: sTrue, ExpectSat: true,
+			Clause: "path remains satisfiable after assuming the callee's postconditions", Props: f.coverProps()})
+		o.Pre = preCover
+		preCover.Name = o.Name + "/pre"
+	}
 	return res, nst
+}
+
+func (f *frame) coverProps() []string {
+	return nil
 }
 
 // specEnvAt: environment for loop invariants at a header block.
